@@ -37,11 +37,15 @@ Definition tKD : ty :=
   TUnion UKinded [mem nInt [] KInt (TInt W64); mem nStr [] KString TString; mem nS [] KMap tSM;
                   mem [76] [] KList (TList false (TInt W64))].
 Definition tKE : ty := TUnion UKinded [mem nEn [] KInt tEi; mem nStr [] KString TString].
-Definition tSP : ty := TUnion UStringprefix [mem nStr [115; 45] KString TString; mem nEn [101; 46] KString tEn].
+Definition tSP : ty := TUnion (UStringprefix []) [mem nStr [115; 45] KString TString; mem nEn [101; 46] KString tEn].
 Definition tMS : ty := TMap false (TInt W64).
 Definition tNL : ty := TList true tKD.
 Definition tI8 : ty := TStruct SMap [fld [118] [118] false false (TInt W8)].
 Definition tUA : ty := TUnion UKeyed [mem nAny sa KMap TAny; mem [76] [108] KMap TLink].
+(* a stringprefix union with the delimiter "::" and discriminants that are prefixes of one another
+   (expressible through the schema API, not the DSL) *)
+Definition tSPd : ty :=
+  TUnion (UStringprefix [58; 58]) [mem nStr [115] KString TString; mem nS [115; 116] KString TString].
 Definition tBig : ty :=
   TStruct SMap [fld sa sx false false tTU; fld sb sb true false (TList true tSP); fld sc sc false false tKD;
                 fld sq sq false true (TMap false tSJ); fld sz sz false false tLP].
@@ -56,7 +60,7 @@ Definition vBig : tv :=
            MVal (VStruct [MAbsent; MVal (VString sq); MVal (VInt 3)])].
 
 Example wf_examples :
-  forallb wf [tSM; tTU; tLP; tEn; tEi; tSJ; tUK; tKD; tKE; tSP; tMS; tNL; tI8; tUA; tBig] = true.
+  forallb wf [tSM; tTU; tLP; tEn; tEi; tSJ; tUK; tKD; tKE; tSP; tSPd; tMS; tNL; tI8; tUA; tBig] = true.
 Proof. vm_compute. reflexivity. Qed.
 
 Example has_type_examples : has_type tSM vSM = true /\ has_type tBig vBig = true.
@@ -70,6 +74,17 @@ Example big_two_routes :
   tbuild Bind qoff tBig (tdm_spec tBig vBig) = BOk vBig /\ rbuild Bind qoff tBig (repr_spec tBig vBig) = BOk vBig /\
   repr_view Bind qoff tBig vBig = ov_of_dm (repr_spec tBig vBig).
 Proof. vm_compute. auto. Qed.
+
+(* the delimited stringprefix union: "st::a:b" is member 1 with "a:b"; a discriminant without the
+   delimiter, a longer unknown discriminant and a bare delimiter are refused *)
+Example delimited_prefix :
+  rbuild Bind qoff tSPd (DString [115; 116; 58; 58; 97; 58; 98]) = BOk (VUnion 1 (VString [97; 58; 98])) /\
+  repr_spec tSPd (VUnion 1 (VString [97; 58; 98])) = DString [115; 116; 58; 58; 97; 58; 98] /\
+  conforms_r tSPd (DString [115; 116; 97]) = None /\
+  conforms_r tSPd (DString [115; 116; 120; 58; 58; 97]) = None /\
+  conforms_r tSPd (DString [58; 58; 97]) = None /\
+  conforms_r tSPd (DString [115; 58; 58]) = Some (VUnion 0 (VString [])).
+Proof. vm_compute. repeat split; reflexivity. Qed.
 
 (* ------------------------------------------------------------------ C09: acceptance refuted, per leniency *)
 Definition accepts_nonconforming (lvl : level) (t : ty) (d : dm) : Prop :=
@@ -181,7 +196,7 @@ Proof. ewitness. Qed.
 Lemma engines_differ_gen_nullable_kinded_null : engines_differ LRepr tNL (DList [DNull]).
 Proof. ewitness. Qed.
 (* the generated stringprefix union (empty delimiter, as compiled from the DSL) refuses its own prefix *)
-Definition tSP2 : ty := TUnion UStringprefix [mem nStr [115; 45] KString TString; mem nS [116; 45] KString TString].
+Definition tSP2 : ty := TUnion (UStringprefix []) [mem nStr [115; 45] KString TString; mem nS [116; 45] KString TString].
 Lemma engines_differ_gen_stringprefix_split : engines_differ LRepr tSP2 (DString [115; 45; 97]).
 Proof. ewitness. Qed.
 (* kinded union holding a struct: Length() differs *)
